@@ -276,6 +276,12 @@ def gen_exec(r, nops, redeliver=True):
         m = r.choice([0, 0, 1, 2, 4]) if r.random() < 0.6 else 0
         mbad = r.randrange(0, m + 1) if m and r.random() < 0.3 else 0
         blk = dict(n=n, bad=bad, m=m, mbad=mbad)
+        if r.random() < 0.45:
+            # the DELIVERED header already carries fields (a block fetched by the state syncer arrives
+            # complete): garbage, the head block's values, or the right value -- the executor must seal
+            # the block from what it executed whatever the header carried
+            blk.update(ptx=r.choice([0, 1, 2, 3]), prc=r.choice([0, 1, 2]), pst=r.choice([0, 1, 2]),
+                       ppar=r.choice([0, 1, 2, 3]), pbloom=r.choice([0, 1]))
         if redeliver and head >= 3 and x < 0.25:
             k = r.randrange(3, head + 1)         # any depth: k = head is the common case, k < head the deep one
             ops.append(dict(op="y", k=k, **blk))
@@ -466,6 +472,8 @@ def run_inner(ctx):
                     executor_level=sum(1 for h in hists if h.get("exec")),
                     executor_redeliveries=sum(1 for h in hists if h.get("exec") for o in h["ops"] if o["op"] == "y"),
                     executor_deep_redelivery_histories=sum(1 for h in hists if h.get("exec") and deep_redelivery(h)),
+                    executor_prefilled_headers=sum(1 for h in hists if h.get("exec") for o in h["ops"]
+                                                   if any(o.get(k) for k in ("ptx", "prc", "pst", "ppar", "pbloom"))),
                     executor_interchain_blocks=sum(1 for h in hists if h.get("exec") for o in h["ops"] if o.get("m", 0) > o.get("mbad", 0)),
                     executor_empty_blocks_after_interchain=sum(empty_after_interchain(h) for h in hists if h.get("exec")),
                     ops=sum(len(h["ops"]) for h in hists))
